@@ -75,6 +75,8 @@ def program_source(nodes: List[Dict[str, Any]], task_deps: List[Any], task: Dict
         body += "        raise ValueError('boom')\n"
     elif kind == "base":
         body += "        raise KeyboardInterrupt()\n"
+    elif kind == "nores":
+        body += "        from taskiq.exceptions import NoResultError\n        raise NoResultError()\n"
     else:
         body += "        return me\n"
     body += "    finally:\n"
